@@ -12,7 +12,7 @@ CONSTANTS Ns,         \* node counts
           Variants,   \* wrapper variants 1..9: plain, optional, sequence, dictionary value, dictionary key, result success, result failure,
                       \* tagged optional ('tag(k) f: T?'), tagged optional sequence ('tag(k) f: Sequence<T>?')
           Mixed,      \* set of BOOLEAN: rotate the wrapper over the edges
-          KindPats,   \* subset of {"struct", "enum", "alt"}
+          KindPats,   \* subset of {"struct", "enum", "alt", "enumu"} (enumu: enums with an underlying type AND fields)
           Compacts,   \* set of BOOLEAN
           MaxEdges,
           Family
